@@ -158,6 +158,8 @@ func c02Scenarios(thorough bool) []*Scenario {
 	scs := []*Scenario{
 		{Name: "S2 two Sets on one leaf of T1, connected, one crash", Cfg: WorldConfig{Targets: []string{"T1"}}, Init: connectAll("T1"),
 			Requests: []SetReqOrCall{a("leafA", "1"), a("leafA", "2")}, CrashBudget: 1},
+		{Name: "S2i two Sets on one leaf of T1, connected; one step held at a store write while another controller or the client runs", Cfg: WorldConfig{Targets: []string{"T1"}}, Init: connectAll("T1"),
+			Requests: []SetReqOrCall{a("leafA", "1"), a("leafA", "2")}, InterleaveBudget: 1},
 		{Name: "S2f two Sets on T1, connection lost and re-established", Cfg: WorldConfig{Targets: []string{"T1"}}, Init: connectAll("T1"),
 			Requests: []SetReqOrCall{a("leafA", "1"), a("leafA2", "2")}, Faults: []FaultSpec{faultConnDown("T1"), faultConnUp("T1")}, FaultBudget: 2},
 		{Name: "S3 Set on T1+T2 and a neighbour Set on T1, connected", Cfg: WorldConfig{Targets: []string{"T1", "T2"}}, Init: connectAll("T1", "T2"),
@@ -254,6 +256,11 @@ func runMonitorCheck(rc *RunCtx, rep *Report, scs []*Scenario,
 			x.Run()
 			cands.resolve(x, rep, sc)
 			out.Numbers["terminal_states"] += int64(terminals)
+			if n, diff := x.ValidateOnRealAtomix(envInt("VERIF_VALIDATE", 3)); diff != "" {
+				rep.HarnessErr = "trace validation on the real atomix runtime: " + diff
+			} else {
+				out.Numbers["traces_validated"] += int64(n)
+			}
 			out.Numbers["states"] += int64(x.States)
 			out.Numbers["transitions"] += int64(x.Transitions)
 			out.Numbers["reconcile_calls_tried"] += int64(x.Probes)
